@@ -333,8 +333,8 @@ def run(tier, seed):
                        "n-ary + and * on inexact operands may associate left or right",
                        "for operands beyond 2^15 an inexact result or an error is accepted, a different exact number is not"]
     ctx.observed["grid_size"] = len(g)
-    cases = build_cases(ctx, tier, g)
-    rcases = random_cases(ctx, 20000 if tier == "quick" else 400000)
+    cases = core.mine(build_cases(ctx, tier, g))
+    rcases = random_cases(ctx, 20000 if tier == "quick" else core.share(400000))
     legs = ["dev", "release"]
     for leg in legs:
         cs = cases if (leg == "dev" or tier == "thorough") else cases[::7]
